@@ -23,6 +23,7 @@ type Solver struct {
 	defLevel  map[int]int // term id -> push level at which it was declared/defined
 	levelDefs [][]int     // ids defined at each push level (index = level)
 	stack     []*Term     // assertion at each push level (level i+1 holds stack[i])
+	flatOpen  bool
 	Queries   int
 	Sat       int
 	Unsat     int
@@ -59,6 +60,7 @@ func (s *Solver) start() {
 	s.defLevel = map[int]int{}
 	s.levelDefs = [][]int{nil}
 	s.stack = nil
+	s.flatOpen = false
 	s.lastSat = false
 	s.nDefs = 0
 	if p := os.Getenv("VF_SMTLOG"); p != "" && s.log == nil {
@@ -147,6 +149,10 @@ func (s *Solver) Check(assertions ...*Term) string {
 	if s.nDefs > 2000000 {
 		s.Restart()
 	}
+	if s.flatOpen {
+		s.send("(pop 1)")
+		s.flatOpen = false
+	}
 	var as []*Term
 	for _, a := range assertions {
 		if a != True {
@@ -234,6 +240,87 @@ func (s *Solver) Check(assertions ...*Term) string {
 	s.Time += d
 	if d > s.MaxQuery {
 		s.MaxQuery = d
+	}
+	return r
+}
+
+// CheckFlat: all definitions at level 0 (they persist), the assertions inside one push level.
+func (s *Solver) CheckFlat(assertions ...*Term) string {
+	t0 := time.Now()
+	s.lastSat = false
+	if s.nDefs > 1500000 {
+		s.Restart()
+	}
+	if len(s.stack) > 0 {
+		s.send(fmt.Sprintf("(pop %d)", len(s.stack)))
+		s.stack = s.stack[:0]
+		for lv := 1; lv < len(s.levelDefs); lv++ {
+			for _, id := range s.levelDefs[lv] {
+				delete(s.defLevel, id)
+				delete(s.defined, id)
+			}
+			s.levelDefs[lv] = s.levelDefs[lv][:0]
+		}
+	}
+	if s.flatOpen {
+		s.send("(pop 1)")
+		s.flatOpen = false
+	}
+	for _, a := range assertions {
+		s.define(a, 0)
+	}
+	s.send("(push 1)")
+	s.flatOpen = true
+	for _, a := range assertions {
+		if a != True {
+			s.send("(assert " + ref(a) + ")")
+		}
+	}
+	s.send("(check-sat)")
+	r := s.readAnswer()
+	s.lastSat = r == "sat"
+	d := time.Since(t0)
+	s.Time += d
+	if d > s.MaxQuery {
+		s.MaxQuery = d
+	}
+	return r
+}
+
+func (s *Solver) readAnswer() string {
+	r := "unknown"
+	for {
+		line, err := s.out.ReadString('\n')
+		if err != nil {
+			s.Errors++
+			s.start()
+			s.Queries++
+			s.Unknown++
+			return "unknown"
+		}
+		line = strings.TrimSpace(line)
+		if line == "sat" || line == "unsat" || line == "unknown" || line == "timeout" {
+			r = line
+			if r == "timeout" {
+				r = "unknown"
+			}
+			break
+		}
+		if strings.HasPrefix(line, "(error") {
+			s.Errors++
+			fmt.Fprintln(os.Stderr, "SOLVER ERROR:", line)
+			r = "unknown"
+			continue
+		}
+	}
+	s.Queries++
+	switch r {
+	case "sat":
+		s.Sat++
+	case "unsat":
+		s.Unsat++
+	default:
+		s.Unknown++
 	}
 	return r
 }
